@@ -195,7 +195,7 @@ func run(c Case) {
 		if c.Kind == "override-simple" {
 			text = fmt.Sprintf("%s=first %s=second", c.Keys[0], c.Keys[1])
 		} else {
-			text = fmt.Sprintf("ase://u:p@h:1/?%s=first&%s=second", c.Keys[0], c.Keys[1])
+			text = fmt.Sprintf("ase://u:p@h:1/?%s=first&%s=middle&%s=second", c.Keys[0], c.Keys[0], c.Keys[1])
 		}
 		h.Eval(c.Keys[0] != c.Keys[1])
 		pan, msg := hlib.Catch(func() {
@@ -389,8 +389,10 @@ func main() {
 			}
 		}
 		// --- overrides: every ordered pair of names of one field
-		multi := dsn.TagToField(newTarget(tg), dsn.Multiref)
-		only := dsn.TagToField(newTarget(tg), dsn.OnlyJSON)
+		probe := newTarget(tg)
+		multi := dsn.TagToField(probe, dsn.Multiref)
+		only := dsn.TagToField(probe, dsn.OnlyJSON)
+		nOverride := 0
 		for jk, jf := range only {
 			if jf.Kind() != reflect.String {
 				continue
@@ -410,9 +412,13 @@ func main() {
 							run(Case{Kind: "override-uri", Target: tg, Keys: []string{n1, n2, jk}})
 						}
 						h.Section("override", 1)
+						nOverride++
 					}
 				}
 			}
+		}
+		if nOverride == 0 && h.Mine(0) {
+			h.Fatal("no override case generated for %s: alias discovery is broken", tg)
 		}
 		// --- unknown keys
 		for _, k := range []string{"nosuchkey", "Host", "HOST", "hostname2", "a.b", "-", "x y"} {
